@@ -56,6 +56,15 @@ structure N where
   names  : El → Kind → String → Option El
   idents : El → Kind → String → Option El
 
+/-- which class may contain which -/
+def validParent : Kind → Kind → Bool
+  | .netlist, .library => true
+  | .library, .definition => true
+  | .definition, .port => true
+  | .definition, .cable => true
+  | .definition, .instance => true
+  | _, _ => false
+
 def isContainer : Kind → Bool
   | .netlist | .library | .definition => true
   | _ => false
@@ -128,9 +137,9 @@ def N.tblRemove (s : N) (p e : El) (k : Key) (old : Option String) : N :=
       if p' = p ∧ s.hasTbl p = true ∧ k = .ident ∧ s.tpol p = .edif ∧ kd = e.kind ∧ some x = old.map lower then none
       else s.idents p' kd x }
 
-/-- values pairwise distinct among children (`no_name_conflicts`): per class when `perKind`, else
-    across all classes (the EDIF identifier set of a definition is not cleared between ports, cables and
-    instances) -/
+/-- values pairwise distinct among children (`no_name_conflicts`): per class when `perKind` (names and —
+    repaired behaviour — EDIF identifiers; the pinned code kept one identifier set across ports, cables and
+    instances), else across all classes -/
 def noDupBy (perKind : Bool) (l : List El) (f : El → Option String) : Bool :=
   match l with
   | [] => true
@@ -146,7 +155,7 @@ def N.compliantAt (s : N) (p : Policy) (e : El) : Bool :=
   noDupBy true (s.kids e) (fun c => (s.info c).name) &&
   (match p with
     | .default => true
-    | .edif => noDupBy false (s.kids e) (fun c => ((s.info c).ident).map lower))
+    | .edif => noDupBy true (s.kids e) (fun c => ((s.info c).ident).map lower))
 
 /-- elements of the subtree rooted at `e` (fixed depth: netlist > library > definition > leaf) -/
 def N.subtree (s : N) (e : El) : List El :=
@@ -248,6 +257,8 @@ def step (s : N) : Op → N × Res
               names := fun x kd v => if x = e then none else s.names x kd v
               idents := fun x kd v => if x = e then none else s.idents x kd v }, .ok)
   | .attach p c =>
+    -- arguments are type-correct objects (a library is added to a netlist, a port to a definition, ...)
+    if !validParent p.kind c.kind then (s, .assert) else
     if s.parent c ≠ none then (s, .assert) else
     -- 1. conflict check against the parent's table, identifier first
     let conflict : Bool := s.conflicts p c
